@@ -36,6 +36,10 @@ CHECKS = {
                   probes=["limit_names_hit", "limit_rules_hit", "limit_replies_hit", "limit_completed_hit", "limit_per_user_hit", "oversize_message_sent"], safety_prop="C10"),
     "C10": simbus("C10", RULE % "C10 (1-4 byte-level hostile clients: garbage before auth, stalled handshakes, over-long lines, mutated valid messages at header offsets, limit-value length words, truncation, floods, half-sent messages, abrupt closes, many unauthenticated connections, clock advances past auth_timeout; interleaved with a well-behaved pair's round trips and a bystander subscribed to everything)",
                   probes=["hostile_invalid_message", "hostile_closed_by_bus", "auth_timeout_fired", "listener_paused"], safety_prop="C10"),
+    "C09": simbus("C09", RULE % "C09 (requested-replies-only policy; calls with and without NO_REPLY_EXPECTED, genuine / duplicate / wrong-serial / third-party replies, reused serials, closes of caller or callee, pending-reply limit, finite reply_timeout with clock advances)",
+                  probes=["unrequested_reply_refused", "noreply_on_disconnect", "reply_slot_expired", "limit_replies_hit", "serial_reuse_refused"], safety_prop="C10"),
+    "C06": simbus("C06", RULE % "C06 (random allow/deny rule lists over every documented attribute in default / user / group / at_console / mandatory contexts, shared vocabulary with the workload, several simulated users, destinations owning several names or only queued)",
+                  probes=["own_denied", "unicast_refused", "send_to_bus_denied", "connect_denied", "policy_receive_denied", "policy_send_denied"], safety_prop="C10"),
 }
 
 # ----------------------------------------------------------------------------- MANIFEST texts
